@@ -30,13 +30,13 @@ def final_order(hist):
     return None
 
 
-def results_equal(hist, a, b):
+def results_equal(hist, a, b, check_order=True):
     """EQ as multisets; after a final order_rows also the sequence of order keys must agree."""
     if a[0] != "ok" or b[0] != "ok":
         return False
     if not compare.EQ(a, b, ordered=False):
         return False
-    fo = final_order(hist)
+    fo = final_order(hist) if check_order else None
     if fo is None:
         return True
     cols = [c for c in fo[0]]
@@ -94,12 +94,15 @@ def raise_finding(backend, res, hist, data):
     return None
 
 
-def decide_pair(hist, data, name_a, res_a, conv_a, name_b, res_b, conv_b, part, case_extra=None):
+def decide_pair(hist, data, name_a, res_a, conv_a, name_b, res_b, conv_b, part, case_extra=None, check_order=True):
     """
     Full decision for one (history, input) between executors a and b.
     Returns one of: "agree", "accepted", "known", "ambiguous", "violation".
     """
-    if results_equal(hist, res_a, res_b):
+    def req(h, x, y):
+        return results_equal(h, x, y, check_order=check_order)
+
+    if req(hist, res_a, res_b):
         part.count("agree")
         return "agree"
     for nm, rs in ((name_a, res_a), (name_b, res_b)):
@@ -114,7 +117,7 @@ def decide_pair(hist, data, name_a, res_a, conv_a, name_b, res_b, conv_b, part, 
         part.count("skipped_ambiguous_order")
         return "ambiguous"
     sb, rb, _ = r_eval(hist, data, conv_b, ())
-    if sa == "ok" and sb == "ok" and results_equal(hist, res_a, ra) and results_equal(hist, res_b, rb):
+    if sa == "ok" and sb == "ok" and req(hist, res_a, ra) and req(hist, res_b, rb):
         part.count("accepted_difference")
         return "accepted"
     da = open_devs(name_a, part)
@@ -124,7 +127,7 @@ def decide_pair(hist, data, name_a, res_a, conv_a, name_b, res_b, conv_b, part, 
     if sa2 == "ambiguous" or sb2 == "ambiguous":
         part.count("skipped_ambiguous_order")
         return "ambiguous"
-    if sa2 == "ok" and sb2 == "ok" and results_equal(hist, res_a, ra2) and results_equal(hist, res_b, rb2):
+    if sa2 == "ok" and sb2 == "ok" and req(hist, res_a, ra2) and req(hist, res_b, rb2):
         trig = sorted(ta | tb)
         if trig:
             ex = {"history": H.short(hist), "data": data, name_a: compare.brief(res_a), name_b: compare.brief(res_b)}
